@@ -320,4 +320,39 @@ func runC01(r *Run, rng *rand.Rand, thorough bool) {
 		xi := new(big.Int).Mod(randInt(rng, 256), q)
 		r.Do("signing.PrepareForSigning", true, "prepare_weight", "s256", eInts(ids), fmt.Sprint(rng.Intn(k)), eInt(xi))
 	}
+	// … and the public weighted points it returns for the other signers: W_j = λ_j·X_j, for every signer count
+	// (an independent Lagrange computation; X_j = (j+2)·G)
+	S := tss.S256()
+	for k := 2; k <= 6; k++ {
+		for rep := 0; rep < 2; rep++ {
+			ids := partyKeys(rng, k, k+rep, q)
+			pts := make([]*crypto.ECPoint, k)
+			for j := range pts {
+				pts[j] = crypto.ScalarBaseMult(S, bi(int64(j+2)))
+			}
+			i := rng.Intn(k)
+			xi := bi(int64(i + 2))
+			wi, bigWs := ecdsasigning.PrepareForSigning(S, i, k, xi, ids, pts)
+			lam := func(j int) *big.Int {
+				num, den := bi(1), bi(1)
+				for c := 0; c < k; c++ {
+					if c == j {
+						continue
+					}
+					num.Mul(num, ids[c]).Mod(num, q)
+					den.Mul(den, new(big.Int).Sub(ids[c], ids[j])).Mod(den, q)
+				}
+				return num.Mul(num, new(big.Int).ModInverse(den, q)).Mod(num, q)
+			}
+			r.Evals++
+			okW := wi != nil && wi.Cmp(new(big.Int).Mod(new(big.Int).Mul(lam(i), xi), q)) == 0 && len(bigWs) == k
+			for j := 0; okW && j < k; j++ {
+				want := crypto.ScalarBaseMult(S, new(big.Int).Mod(new(big.Int).Mul(lam(j), bi(int64(j+2))), q))
+				okW = bigWs[j] != nil && bigWs[j].X().Cmp(want.X()) == 0 && bigWs[j].Y().Cmp(want.Y()) == 0
+			}
+			r.Assert(okW, "signing.PrepareForSigning/public-weights", "W_j=lambda_j*X_j-for-every-signer", func() string {
+				return fmt.Sprintf("signers=%d ids=%s own=%d", k, eInts(ids), i)
+			})
+		}
+	}
 }
